@@ -522,7 +522,53 @@ def history_run(case, shared):
 def work_history(chunk):
     acc = fw.Acc()
     fw.pair_histories(acc, 'C19', 'wrapper-object-reuse', history_cases(), history_run)
+    reentrant(acc)
     return acc
+
+
+def reentrant(acc):
+    """f itself uses the SAME wrapper object with other extra arguments (e.g. a recursive model definition): every
+    evaluation of the outer call must receive the outer call's extras, and the outer result must be bit-identical to
+    the call without the inner one."""
+    import numdifftools.nd_scipy as nds
+    x = np.array([0.7, -1.3])
+    for api in ('Jacobian', 'Gradient'):
+        for method in ('forward', 'central', 'complex'):
+            st = {'depth': 0, 'n': 0, 'bad': 0, 'nest': True}
+            base = _hist_f if api == 'Jacobian' else _hist_g
+
+            def f(t, scale, shift=0.0, st=st, base=base):
+                want = (2.5, -1.0) if st['depth'] == 0 else (1.0, 0.0)
+                if st['depth'] == 0:
+                    st['n'] += 1
+                if (scale, shift) != want:
+                    st['bad'] += 1
+                if st['nest'] and st['depth'] == 0 and st['n'] == 2:
+                    st['depth'] = 1
+                    try:
+                        obj(x, 1.0, shift=0.0)
+                    finally:
+                        st['depth'] = 0
+                return base(t, scale, shift)
+            case = dict(kind='reentrant', api=api, method=method)
+            try:
+                obj = getattr(nds, api)(f, method=method)
+                nested = fw.obs(obj(x, 2.5, shift=-1.0))
+                bad, nev = st['bad'], st['n']
+                st.update(depth=0, n=0, bad=0, nest=False)
+                obj = getattr(nds, api)(f, method=method)
+                plain = fw.obs(obj(x, 2.5, shift=-1.0))
+                prob = None
+                if bad:
+                    prob = '%d of the %d evaluations of the outer call did not receive its extra arguments' % (bad, nev)
+                elif nested != plain:
+                    prob = 'the result differs from the same call without the inner one'
+            except Exception as e:      # noqa: BLE001
+                prob = 'raised %s: %s' % (type(e).__name__, e)
+            acc.case(('reentrant', api, method), nontrivial=True, cell='history/reentrant', outcome=prob is None)
+            if prob:
+                acc.violation('C19:%s:%s:reentrant-extra-arguments' % (api, method), case,
+                              'nd_scipy.%s(f, method=%r), f calling the same object with other extras: %s' % (api, method, prob), 1)
 
 
 def run(ctx):
@@ -553,7 +599,7 @@ def run(ctx):
     req += ['J:m=%d' % m for m in range(1, 6)] + ['J:affine', 'J:ridge', 'G:affine', 'G:ridge',
                                                    'J:extras=0', 'J:extras=1', 'G:extras=0', 'G:extras=1',
                                                    'G:x=float', 'G:x=0-d', 'G:x=1-d', 'G:x=2-d']
-    req += ['history/wrapper-object-reuse']
+    req += ['history/wrapper-object-reuse', 'history/reentrant']
     if full:
         req += ['J:pair=%s*%s' % p for p in PAIRS] + ['J:extras=2', 'J:extras=3']
     rule = (
@@ -602,6 +648,12 @@ def run(ctx):
 
 
 def replay(case):
+    if case.get('kind') == 'reentrant':
+        a = fw.Acc()
+        reentrant(a)
+        bad = [r['detail'] for k, (n, recs) in a.viol.items() for r in recs if r['case'].get('api') == case['api']
+               and r['case'].get('method') == case['method']]
+        return not bad, '%r -> %s' % (case, bad or 'ok')
     if case.get('kind') == 'history':
         cs = history_cases()
         a, b = cs[case['i']], cs[case['j']]
